@@ -34,8 +34,11 @@ pub struct Instr {
     pub gas_calls: u64,
 }
 
+/// Far above anything a program that finished within PLAIN_FUEL under plain wasmi can be charged.
+pub const UNIT_CEILING: u64 = 2_000_000_000_000;
+
 pub fn run_instrumented(inst: &mut dyn WasmInstance, export: &str, args: &[i64]) -> Result<Instr, PanicInfo> {
-    let st = Rc::new(RefCell::new(MonState::default()));
+    let st = Rc::new(RefCell::new(MonState { unit_limit: Some(UNIT_CEILING), ..Default::default() }));
     let mut rt = MonRuntime::boxed(&st);
     let bufs: Vec<Buffer> = args.iter().map(|a| Buffer(*a as u64)).collect();
     let r = catch_mut(|| inst.invoke_export(export, bufs, &mut rt))?;
@@ -77,6 +80,9 @@ pub struct Compiled {
 pub fn compile(wat_text: &str, flavour: Flavour, exports: Vec<(String, usize)>, imports: &[&'static HostFn]) -> Result<Compiled, String> {
     let code = wat::parse_str(wat_text).map_err(|e| format!("wat: {e}"))?;
     let (instrumented, _) = ScryptoV1WasmValidator::new(ScryptoVmVersion::latest()).validate(&code, std::iter::empty()).map_err(|e| format!("validate: {e:?}"))?;
+    if let Err(e) = wasmparser::Validator::new_with_features(crate::c45::mvp_features()).validate_all(&instrumented) {
+        return Err(format!("invalid-output: {e}"));
+    }
     let plain = PlainModule::new(&code, imports).map_err(|e| format!("plain: {e}"))?;
     let module = WasmiModule::new(&instrumented).map_err(|e| format!("compile instrumented: {e:?}"))?;
     Ok(Compiled { prog_wat: wat_text.to_string(), flavour, exports, code, instrumented, plain, module })
@@ -125,6 +131,10 @@ fn eval_call(c: &Compiled, engine: &WasmiEngine, export: &str, args: &[i64], imp
             return None;
         }
     };
+    if a.units > UNIT_CEILING {
+        shard.violation("instrumented:runaway-execution", json!({"case": ctx(), "original": result_class(&plain), "units": a.units}));
+        return None;
+    }
     let pc = result_class(&plain);
     let ic = result_class(&a.out);
     shard.seen("outcome_class", &pc);
@@ -192,6 +202,10 @@ fn one_module(rng: &mut Rng, shard: &mut Shard, engine: &WasmiEngine, calls_per_
         Err(e) => {
             if e.starts_with("wat:") || e.starts_with("plain:") {
                 panic!("generator produced an invalid module: {e}\n{}", prog.wat);
+            }
+            if e.starts_with("invalid-output:") {
+                shard.violation("instrumented:output-is-not-valid-wasm", json!({"case": {"flavour": flavour_name(fl), "wat": prog.wat, "export": prog.exports[0].0, "args": Vec::<String>::new(), "imports": prog.imports.iter().map(|h| h.name).collect::<Vec<_>>()}, "error": e}));
+                return;
             }
             shard.count("generated_module_rejected");
             shard.seen("reject_reason", &e.chars().take(80).collect::<String>());
